@@ -96,11 +96,23 @@ def sites():
 
 
 def sh(cmd, cwd=None, timeout=None, env=None):
+    # own process group: on a timeout the whole group is killed (a mutant that never returns spins in a test binary that
+    # is a grandchild of `cargo test`; killing cargo alone leaves it running)
+    import signal
+    p = subprocess.Popen(cmd, cwd=cwd, env=env or ENV, stdout=subprocess.PIPE, stderr=subprocess.STDOUT, text=True, start_new_session=True)
     try:
-        p = subprocess.run(cmd, cwd=cwd, env=env or ENV, stdout=subprocess.PIPE, stderr=subprocess.STDOUT, text=True, timeout=timeout)
-        return p.returncode, p.stdout
-    except subprocess.TimeoutExpired as e:
-        return 124, (e.stdout or "") if isinstance(e.stdout, str) else ""
+        out, _ = p.communicate(timeout=timeout)
+        return p.returncode, out
+    except subprocess.TimeoutExpired:
+        try:
+            os.killpg(p.pid, signal.SIGKILL)
+        except ProcessLookupError:
+            pass
+        try:
+            out, _ = p.communicate(timeout=30)
+        except Exception:  # noqa
+            out = ""
+        return 124, out or ""
 
 
 def norm_gen(d):
